@@ -28,6 +28,7 @@ RULE = ("untimed case = one word over rows (key incl. null, value null/non-null,
         "halflife x time unit x origin (before/at/after the epoch); ungrouped case = null pattern of "
         "one series; non-trivial = a group with >= 2 valid rows or an invalid row after a valid one")
 ASSUMPTIONS = [
+    'tied timestamps (gap 0) between rows of different groups and of one group (panel data): every gap sequence over {0,1,3}, n <= 4 (quick) / 5 (thorough)',
     "n <= 4 rows (quick) / 5 (thorough), G <= 2-3 groups",
     "relative tolerance 1e-12 (1e-6 for float32 input) - the statement speaks of a weighted mean "
     "of floats, not of a particular summation order",
